@@ -42,6 +42,8 @@ pub fn catalogue() -> Vec<EOp> {
         EOp::ClosureDel(1),
         EOp::FilterIds(1),
         EOp::FilterIdsScan,
+        EOp::TrainCycle,
+        EOp::LogServed,
     ]
 }
 
@@ -73,7 +75,7 @@ fn deadlock_sig(blocked: &[(usize, u64, String, String)]) -> String {
 pub fn explore_engine_program(ops: &[EOp], init: Init, bound: usize, max_execs: usize, agg: &mut Agg) {
     agg.programs += 1;
     let persistent = ops.iter().any(|o| o.needs_persistence());
-    let learned = ops.iter().any(|o| matches!(o, EOp::Lifecycle));
+    let learned = ops.iter().any(|o| o.wants_learned());
     let cfg = ExploreCfg { bound, max_execs, ..Default::default() };
     let ops_v = ops.to_vec();
     let mut found: Option<(String, Vec<u8>, Vec<(usize, u64, String, String)>)> = None;
@@ -364,7 +366,7 @@ pub fn explore_component_program(group: &str, ops: &[COp], bound: usize, agg: &m
 /// (held site, held mode, requested site, requested mode) edges of one op run alone.
 pub fn solo_edges(op: &EOp, init: Init) -> BTreeSet<(String, String, String, String)> {
     sched::reset_lock_keys();
-    let w = build(init, op.needs_persistence(), matches!(op, EOp::Lifecycle));
+    let w = build(init, op.needs_persistence(), op.wants_learned());
     let te = w.te.clone();
     let o = op.clone();
     let res = sched::run_one(
@@ -573,7 +575,7 @@ fn run_replay(path: &str) -> i32 {
         let res = if c["level"] == "TieredEngine" {
             let ops: Vec<EOp> = serde_json::from_value(c["ops"].clone()).unwrap();
             let init: Init = serde_json::from_value(c["init"].clone()).unwrap();
-            let w = build(init, ops.iter().any(|o| o.needs_persistence()), ops.iter().any(|o| matches!(o, EOp::Lifecycle)));
+            let w = build(init, ops.iter().any(|o| o.needs_persistence()), ops.iter().any(|o| o.wants_learned()));
             let bodies: Vec<Body> = ops.iter().map(|op| { let te = w.te.clone(); let op = op.clone(); Box::new(move || { let _ = run_op(&te, &op); }) as Body }).collect();
             // replay explores without reduction: the recorded schedule was found under the reduced
             // branching set, so search for the same deadlock instead of trusting indices
